@@ -8,7 +8,7 @@ Line protocol of the C06 harness (tokens after the leading `C06`):
   gs <self> <follower01> <members> <pins> <replies> => c<cid>=<peer:st,..> ...   (Cluster.StatusAll)
 
   tf <self> <faults> <recs> <filters> => S=.. SI=<cid:bits,..> L<f>=.. LI=<cid:bits,..>   (tracker views, failing resources / any daemon answer)
-  tr <self> <e|a> <recs> => B=<cid:st,..> R=<cid:st,..> A=<cid:st,..>                     (Recover / RecoverAll against the views)
+  tr <self> <e|a> <recs> => B=<cid:st,..> R=<cid:st,..> A=<cid:st,..> E=<cid:0|1,..>                   (Recover / RecoverAll against the views)
   gc/gs: members "!" = consensus.Peers fails; gc pin "!" = the state fails; reply "t" = the call never answers (context ends)
 
   faults  = "-" | gs,ls,lm,pd,pr,g<cid>,c<cid>  (getState, State.List, State.List mid-way, PinLs direct, PinLs recursive, State.Get cid, PinLsCid cid)
@@ -353,24 +353,39 @@ def answerTR (pre post : List String) : String :=
       if mode != "e" && mode != "a" then "bad-case mode" else
       if post == ["panic"] then "propfail no_panic arm=recover" else
       match post with
-      | [b, r, a] =>
+      | [b, r, a, e] =>
         match (do
           let b ← if b.startsWith "B=" then parsePairs ((b.drop 2).toString) else none
           let r ← if r.startsWith "R=" then parsePairs ((r.drop 2).toString) else none
           let a ← if a.startsWith "A=" then parsePairs ((a.drop 2).toString) else none
-          pure ({ before := b, answer := r, after := a } : OutputR)) with
+          let e ← if e.startsWith "E=" then parsePairs ((e.drop 2).toString) else none
+          pure ({ before := b, answer := r, after := a, errText := e } : OutputR)) with
         | none => "bad-case unparsable-output"
         | some o =>
           let arm := "arm=recover-" ++ (if mode == "e" then "each" else "all") ++
             (if o.before.any (fun e => recoverable e.2) then " arm=recoverable" else "")
           let failed := (clausesR o).filter (fun c => !c.2)
-          if !failed.isEmpty then "propfail " ++ ",".intercalate (failed.map (·.1)) ++ " " ++ arm else
+          let whyR := (o.answer.filter (fun e => (lookup o.errText e.1 == some 1) != isErr e.2)).map (fun e =>
+            "rc_error_text@" ++ (match i.recs.find? (fun r => r.cid == e.1) with | some r => opCode r | none => "?") ++
+              ":st" ++ toString e.2)
+          if !failed.isEmpty then "propfail " ++ ",".intercalate (failed.map (·.1)) ++ " " ++ arm ++
+            " why=" ++ ";".intercalate whyR else
           -- the model, with the phase the implementation was seen in
           let phs (c : Nat) : Phase := phaseOfStatus ((lookup o.answer c).getD 0)
           let mBefore := if mode == "e" then statusEach i else statusAll i 0
           let mAnswer := if mode == "e" then i.recs.map (fun r => (r.cid, recover i r (phs r.cid))) else recoverAll i phs
+          -- error text of the answer: the failed operation's, none for a fresh operation
+          let textOf (r : Rec) (s0 : Nat) : Nat :=
+            let r' := afterRecover r s0 (phs r.cid)
+            let b : Bool := match r'.op with
+                | some op => if op.phase == .done then isErr (status i r') else op.phase == .error
+                | none => isErr (status i r')
+            if b then 1 else 0
+          let mText := if mode == "e" then i.recs.map (fun r => (r.cid, textOf r (status i r)))
+            else i.recs.filterMap (fun r => (listEntry i 0 r).map (fun s0 => (r.cid, textOf r s0)))
           if o.before != mBefore then "diff " ++ arm ++ " model=B=" ++ showPairs mBefore
           else if o.answer != mAnswer then "diff " ++ arm ++ " model=R=" ++ showPairs mAnswer
+          else if o.errText != mText then "diff " ++ arm ++ " model=E=" ++ showPairs mText
           else "ok " ++ arm ++ (if i.recs.isEmpty then " trivial" else "")
       | _ => "bad-case output-arity"
   | _ => "bad-case arity"
